@@ -1037,7 +1037,11 @@ class Model:
             if call is not None and depth > 0:
                 tgt = self._private_target(call, f, mi, ci)
                 if tgt is not None and id(tgt) not in stack:
+                    tg_ = s.targets[0] if isinstance(s, ast.Assign) else getattr(s, "target", None)
+                    self._inl_targets = {x.id for x in ast.walk(tg_) if isinstance(x, ast.Name)} \
+                        if tg_ is not None else set()
                     rep = self._inline_call(call, tgt, fin, mi, ci, depth, stack, taken)
+                    self._inl_targets = set()
             if rep is None:
                 out.append(s)
             else:
@@ -1131,8 +1135,21 @@ class Model:
                 if not (isinstance(e, ast.Name) and e.id == nm):
                     pre.append(ast.Assign(targets=[ast.Name(id=nm, ctx=ast.Store())],
                                           value=_cp(e), lineno=call.lineno))
+        # a helper local may keep the name of a caller variable that this very
+        # statement assigns (`a, b = _h(x)` with locals a, b in _h: the usual shape of
+        # an extracted block), unless the call's arguments read that variable
+        argnames = {x.id for e in bind.values() for x in ast.walk(e) if isinstance(x, ast.Name)}
+        # (only where the helper hands the local back as it is: `return a, b`)
+        handed = None
+        for r_ in (x for s_ in tgt.body for x in _walk_same_scope(s_) if isinstance(x, ast.Return)):
+            v_ = r_.value
+            names_ = {v_.id} if isinstance(v_, ast.Name) else (
+                {e.id for e in v_.elts} if isinstance(v_, ast.Tuple) and all(
+                    isinstance(e, ast.Name) for e in v_.elts) else set())
+            handed = names_ if handed is None else handed & names_
+        keep = (getattr(self, "_inl_targets", set()) & (handed or set())) - argnames
         for v in assigned - set(bind):
-            ren[v] = v if v not in taken else v + "__inl"
+            ren[v] = v if (v not in taken or v in keep) else v + "__inl"
         taken |= set(ren.values())
 
         class Sub(ast.NodeTransformer):
